@@ -123,6 +123,11 @@ func (diff *FileDiff) Initialize(repository *git.Repository) error {
 func stripWhitespace(str string, ignoreWhitespace bool) string {
 	if ignoreWhitespace {
 		response := strings.Replace(str, " ", "", -1)
+		if str != "" && !strings.HasSuffix(str, "\n") && (response == "" || strings.HasSuffix(response, "\n")) {
+			// the last line consists of spaces only and is not terminated: it must remain a line,
+			// otherwise the line counts disagree with CachedBlob.CountLines()
+			response += " "
+		}
 		return response
 	}
 	return str
